@@ -944,8 +944,8 @@ func (c *inlCtx) tryCall(st ast.Stmt, call *ast.CallExpr, kind callKind, as *ast
 		return
 	}
 	info := c.pk.TypesInfo
-	if sig.Variadic() || call.Ellipsis.IsValid() || sig.TypeParams() != nil || sig.RecvTypeParams() != nil {
-		c.skip(call, name, "variadic or generic")
+	if sig.TypeParams() != nil || sig.RecvTypeParams() != nil {
+		c.skip(call, name, "generic")
 		return
 	}
 	calleeTF := c.p.Fset.File(body.Pos())
@@ -1109,10 +1109,12 @@ func (c *inlCtx) tryCall(st ast.Stmt, call *ast.CallExpr, kind callKind, as *ast
 	_ = calleeFile
 	// ---- parameters
 	type binding struct {
-		obj   types.Object
-		name  string
-		arg   ast.Expr
-		subst bool
+		obj      types.Object
+		name     string
+		arg      ast.Expr
+		subst    bool
+		variadic []ast.Expr // the arguments gathered by a variadic parameter (arg is nil)
+		isVar    bool
 	}
 	var binds []binding
 	rootIdent := func(e ast.Expr) *ast.Ident {
@@ -1280,6 +1282,21 @@ func (c *inlCtx) tryCall(st ast.Stmt, call *ast.CallExpr, kind callKind, as *ast
 				continue
 			}
 			for _, nm := range fl.Names {
+				if _, isEll := fl.Type.(*ast.Ellipsis); isEll && sig.Variadic() && !call.Ellipsis.IsValid() {
+					// `f(a, b, c)` with `xs ...T`: the parameter is the slice []T{b, c} (nil without arguments)
+					rest := call.Args[min(ai, len(call.Args)):]
+					if nm.Name == "_" {
+						for _, a := range rest {
+							if !simple(a) {
+								bad = "argument with possible side effects for an unnamed parameter"
+							}
+						}
+					} else {
+						binds = append(binds, binding{obj: info.Defs[nm], name: nm.Name, variadic: rest, isVar: true})
+					}
+					ai = len(call.Args)
+					continue
+				}
 				if ai >= len(call.Args) {
 					c.skip(call, name, "argument count")
 					return
@@ -1506,6 +1523,9 @@ func (c *inlCtx) tryCall(st ast.Stmt, call *ast.CallExpr, kind callKind, as *ast
 	// fn = (*T).m is written `x.m(a)`
 	methParam := map[types.Object]string{}
 	for _, b := range binds {
+		if b.isVar {
+			continue
+		}
 		mname, isME := methodExpr(b.arg)
 		if !isME || b.obj == nil || assigned(b.obj) {
 			continue
@@ -1580,7 +1600,19 @@ func (c *inlCtx) tryCall(st ast.Stmt, call *ast.CallExpr, kind callKind, as *ast
 		if v, ok := b.obj.(*types.Var); ok {
 			t = typeStr(v.Type())
 		}
-		bindDecls = append(bindDecls, fmt.Sprintf("var %s %s = %s", b.name, t, c.text(b.arg)))
+		if b.isVar {
+			val := "nil"
+			if len(b.variadic) > 0 {
+				var parts []string
+				for _, a := range b.variadic {
+					parts = append(parts, c.text(a))
+				}
+				val = t + "{" + strings.Join(parts, ", ") + "}"
+			}
+			bindDecls = append(bindDecls, fmt.Sprintf("var %s %s = %s", b.name, t, val))
+		} else {
+			bindDecls = append(bindDecls, fmt.Sprintf("var %s %s = %s", b.name, t, c.text(b.arg)))
+		}
 		used := false
 		for _, id := range origIds {
 			if info.Uses[id] == b.obj {
